@@ -143,12 +143,14 @@ func mkMixed(id, method, tok string) member {
 type srvConfig struct {
 	// basectx (racing scenarios only): ServerOptions.NewContext hands out a context derived from one base
 	// context that the scenario may end, with a cause of its own, at any time
-	basectx bool
-	K       int
-	push    bool
-	builtin bool
-	unblock bool
-	methods []string
+	basectx  bool
+	rpclog   bool // ServerOptions.RPCLog is set (a logger that only checks what it is given)
+	closeErr bool // the channel's Close returns an error
+	K        int
+	push     bool
+	builtin  bool
+	unblock  bool
+	methods  []string
 }
 
 type mctx struct {
@@ -297,6 +299,20 @@ func (r *srvRun) fault(f string) {
 	r.mu.Unlock()
 }
 
+// rpcLogger is the RPCLog option of half of the scenarios: the server behaves the same with and without one.
+type rpcLogger struct{ r *srvRun }
+
+func (l rpcLogger) LogRequest(ctx context.Context, req *jrpc2.Request) {
+	if req == nil {
+		l.r.fault("RPCLog.LogRequest called with a nil request")
+	}
+}
+func (l rpcLogger) LogResponse(ctx context.Context, rsp *jrpc2.Response) {
+	if rsp == nil {
+		l.r.fault("RPCLog.LogResponse called with a nil response")
+	}
+}
+
 type assigner struct{ r *srvRun }
 
 func (a assigner) Assign(ctx context.Context, method string) jrpc2.Handler {
@@ -311,6 +327,9 @@ func (a assigner) Assign(ctx context.Context, method string) jrpc2.Handler {
 func newSrvRun(cfg srvConfig, out *bufio.Writer) *srvRun {
 	r := &srvRun{cfg: cfg, log: &logger{out: out}, sc: &sched{on: true}, gates: map[string]chan gateMsg{}, notes: map[string]bool{}, cbctx: map[int]*mctx{}}
 	opts := &jrpc2.ServerOptions{Concurrency: cfg.K, AllowPush: cfg.push, DisableBuiltin: !cfg.builtin}
+	if cfg.rpclog {
+		opts.RPCLog = rpcLogger{r}
+	}
 	if cfg.basectx {
 		r.base, r.baseCancel = context.WithCancelCause(context.Background())
 		opts.NewContext = func() context.Context { return r.base }
@@ -336,6 +355,7 @@ func (r *srvRun) settleEnv() {
 
 func (r *srvRun) start() {
 	r.ch = newFchan(r.log, r.cfg.unblock)
+	r.ch.closeErr = r.cfg.closeErr
 	r.ch.tryLock = r.srv.VerifTryLock
 	r.ch.widen = r.race
 	r.chans = append(r.chans, r.ch)
